@@ -49,7 +49,9 @@ BlockPost(p, S) ==
 ConfigPost(p, S) ==
   /\ NodeSet(S) = Range(p.nodes)
   /\ \A e \in EdgeSet(S) : Cardinality(S.e2n[e]) = p.m
-  /\ \A k \in DOMAIN p.maxdeg : Degree(S, p.maxdeg[k][1]) <= p.maxdeg[k][2]
+  \* p.n: how many extra connections the documentation allows (degree sum not divisible by m)
+  /\ \A k \in DOMAIN p.maxdeg : Degree(S, p.maxdeg[k][1]) <= p.maxdeg[k][2] + (IF p.n > 0 THEN 1 ELSE 0)
+  /\ Cardinality({k \in DOMAIN p.maxdeg : Degree(S, p.maxdeg[k][1]) > p.maxdeg[k][2]}) <= p.n
 BipartitePost(p, S) ==   \* chung_lu / dcsbm: ids and members inside the prescribed sets
   /\ NodeSet(S) = Range(p.nodes) /\ EdgeSet(S) \subseteq Range(p.sizes)
   /\ \A k \in DOMAIN p.maxdeg : TRUE
